@@ -185,6 +185,54 @@ CHECKS = {
              "schedule (growing, repeating the last delay, reset by success), b is processed at its arrival instants, no operator "
              "task fails, a converges once errors stop and an event arrives.",
         design_ref='DESIGN.md §6 C12'),
+    'C13': dict(
+        technique="explicit-state history enumeration with several whole operator instances on one virtual loop and clock (starts, "
+                  "graceful exits, kills, foreign peering records to depth d) plus deviation-bounded keep-alive latency search",
+        text="Two or three complete kopf.operator() instances (priorities 0, 100, 0) run in one virtual loop against one in-memory API "
+             "server sharing a ClusterKopfPeering object (each seeing only its own tasks, as separate processes would). Every history "
+             "to depth 2/3 over {start, graceful stop, kill, restart, foreign record live-high / long-dead / odd} in stable (100 s) and "
+             "unstable (20 s) spacings with both ends of the keep-alive jitter; a deviation-bounded search moves the clock while "
+             "keep-alive PATCHes are in flight. Judged from the API log and the open watches: in stable configurations exactly the "
+             "unique top-priority operator holds a watch (nobody on shared/foreign top priority); paused operators start no handlers "
+             "after a drain margin; own records never expire; records vanish on graceful exit; dead records get cleaned; no handler "
+             "succeeds twice for one object across pauses.",
+        design_ref='DESIGN.md §6 C13'),
+    'C17': dict(
+        technique="explicit-state history enumeration on the implementation against a dictionary reference model of the index, plus "
+                  "deviation-bounded schedule search over the initial listings of two resource kinds on the whole operator",
+        text="(a) an index whose function is scripted by the object's content (dict k1 / dict k2 / two keys / scalar / None / temporary / "
+             "permanent / ignored error) with a label filter runs in the real closed loop; every history to depth 3 over 2 objects (2/3 "
+             "over 3 objects) of set-code / label off / label on / delete / wait; after every event a raw-event probe reads the index "
+             "through the read-only kwarg view (keys, values, len, in, bool) and it must equal a dictionary model of docs/indexing.rst. "
+             "(b) the whole operator with two indexed kinds with pre-existing objects, create/resume handlers, a daemon and a timer: "
+             "every placement (deviation-bounded) of delayed answers and deliveries of the two initial listings; no handler, daemon or "
+             "timer may run while the indices it receives lack any object that existed at the start.",
+        design_ref='DESIGN.md §6 C17'),
+    'C19': dict(
+        technique="stateless model checking of the watch client: stream faults at every scripted position plus deviation-bounded fault "
+                  "placement; explicit-state history enumeration with step-level revision placement for the orchestrator",
+        text="(a) the real infinite_watch/continuous_watch/watch_objs/api.stream code consumes an in-memory API server while two objects "
+             "are created/modified/deleted and one stream fault (EOF, reset, payload error, client timeout, 410 in-stream, compaction + "
+             "EOF, BOOKMARK, unknown type, unknown ERROR, pause/resume; thorough: pairs) strikes at every position; a deviation-bounded "
+             "search additionally places faults (incl. 429/500/connection errors on connect) anywhere. From the request log and the "
+             "yielded events: watches resume from the newest version seen, never newer; everything the server delivered is yielded; "
+             "the consumer's final view equals the server's; unknown ERRORs end the stream; nothing is requested while paused and a "
+             "resume starts with a listing. (b) the real orchestrator over every meaningful history to depth 3/4 of namespace/resource "
+             "additions and removals, spaced and back-to-back with every placement of a revision among the steps of the previous "
+             "adjustment: exactly one open watch per served pair, none else. One defect repaired, one recorded as known finding.",
+        design_ref='DESIGN.md §6 C19'),
+    'C20': dict(
+        technique="stateless model checking of the whole operator: scripted stop triggers and task failures at every instant class "
+                  "plus a deviation-bounded search that moves the trigger to every choice point of the run",
+        text="The complete kopf.operator() with peering runs against the in-memory API server with startup/cleanup scripts (incl. two "
+             "handlers where one fails while the other retries), a daemon of each reaction, a slow change handler; the stop flag or a "
+             "task cancellation strikes at 7 instants from t=0 on, and (search group) at every choice point; failures are injected "
+             "into the resource, CRD and peering watches and into every object worker. Oracle on the global order: no API request "
+             "before startup succeeded, none at all and a raise after a failed startup, ready only after startup; after a trigger or "
+             "failure operator() returns within the grace periods re-raising the failure, daemons exited or abandoned, peering record "
+             "withdrawn, cleanup last, no API call after cleanup began. One genuine defect (unsupervised watcher tasks) was repaired; "
+             "exits blocked by cancellation-swallowing daemons are recorded as known findings.",
+        design_ref='DESIGN.md §6 C20'),
 }
 
 
